@@ -187,7 +187,7 @@ struct Reg
         if (T != 3 && n == 6)
           continue;
         int bq = T == 1 ? 1 : (T == 2 ? (n <= 3 ? 4 : 3) : (n <= 1 ? 3 : (n <= 3 ? 2 : (n == 6 ? 1 : -1))));
-        int bt = T == 1 ? 2 : (T == 2 ? (n <= 3 ? 5 : 4) : (n <= 3 ? 4 : 3));
+        int bt = T == 1 ? 2 : (T == 2 ? 4 : (n <= 2 ? 3 : 2));
         add("pf_T" + std::to_string(T) + "_n" + std::to_string(n), bq, bt);
       }
     }
@@ -195,13 +195,13 @@ struct Reg
     add("pfll_T2_n-1", 3, 4);
     add("pfu8_T2_n3", 3, 4);
     add("pfsz_T2_n3", 3, 4);
-    add("nest_T2_2x2", 2, 4);
+    add("nest_T2_2x2", 2, 3);
     add("nest_T2_2x3", -1, 3);
-    add("nest_T3_2x2", 2, 3);
-    add("each_T2_n3", 2, 4);
+    add("nest_T3_2x2", 2, 2);
+    add("each_T2_n3", 2, 3);
     add("blk_T2_n5", 3, 4);
     add("blk_T2_n4", -1, 4);
-    add("twice_T2_n3", 2, 4);
+    add("twice_T2_n3", 2, 3);
     for (int n = 2; n <= 6; n++)
       add("spf_T2_n" + std::to_string(n), 2, 3);
     add("spf_T3_n6", 1, 2);
